@@ -19,7 +19,7 @@ SIZE_NAMES = ('size', 'align', 'count', 'len', 'alignment', 'capacity', 'n', 'ad
 
 def run(ctx):
     fx = ctx.facts("default")
-    fixtures.run(ctx, ['linear', 'taint', 'commit', 'relink', 'viewcursor', 'locksplit', 'region'])
+    fixtures.run(ctx, ['linear', 'taint', 'commit', 'relink', 'viewcursor', 'locksplit', 'region', 'rangedep'])
     # (1) request sizes are untrusted integers for the allocator entry points
     cl = taint.new_closure(fx)
     n = 0
@@ -92,6 +92,8 @@ def run(ctx):
         ctx.analysed_fns.add(pf)
         ctx.instance("R-GUARD.region.validators", refusal.region_upper_bound(ctx, fx, Fn(rec), 2, r"memory_size$|capacity$|total_capacity$"))
     ctx.floor("R-GUARD.region.validators", 2)
+    ctx.instance('R-RANGE.dep.pairs', linear.end_from_start(ctx, fx, 'memory::bump::BumpAllocator::bump_range'))
+    ctx.floor('R-RANGE.dep.pairs', 1)
     # (4d) the end-of-chunk carve of the five-level pool refuses on the cursor it advances
     linear.guard_on_cursor(ctx, fx, "memory::five_level_pool::NoLockingPool::alloc_from_end")
     # (5) who may drop an arena
